@@ -94,7 +94,9 @@ class Prop(SeqProp):
                     d[(10 ** 6, 10 ** 6 + 1)] = "late"
                     if st[1]:
                         d.pop(next(iter(d)))
-                    out.append("ok")
+                    from .. import core as _core
+                    cp = _core.clone_probe(m, lambda o: (list(o), len(o), [(k in o) and o[k] for k in (0, 1, -1, 5, 2.5, -3, 8, 12)]))
+                    out.append("ok" if cp is None else "ok clone-problem: " + cp)
                 elif m is None:
                     out.append("bad-op")
                 elif st[0] == "get":
@@ -129,6 +131,9 @@ class Prop(SeqProp):
         return True
 
     def oracle(self, case, impl_out):
+        for i, line in enumerate(impl_out):
+            if "clone-problem: " in line:
+                return f"op {i}: copies of the map: {line.split('clone-problem: ')[1][:600]}"
         ivs = None
         for i, (st, line) in enumerate(zip(case.meta["impl"], impl_out)):
             if st[0] == "mk":
